@@ -95,12 +95,12 @@ def conds(tier):
     out = []
     out.append(core.shape_cond("order", P, [3, 4, 5, 13, 17, 6, 7, 12] if q else list(range(20)),
                                fam.OK_MENU, 3 if q else 4, budget=200 if q else 900))
-    out.append(core.seq_cond("seq", P, 3, 2))
-    out.append(Cond("dag", core.mk_dag(P), core.DAG_PARAMS, pin=3, budget=120, family="F-DAG",
+    out.append(core.seq_cond("seq", P, 3, 2, builds=("C", "P")))
+    out.append(Cond("dag", core.mk_dag(P), core.DAG_PARAMS, builds=("C", "P"), pin=3, budget=120, family="F-DAG",
                     encodes=core.ENC_SCHED))
-    out.append(Cond("tree", core.mk_tree(P, 3, 2, 2), core.tree_params(3, 2, 2), pin=3, budget=120,
+    out.append(Cond("tree", core.mk_tree(P, 3, 2, 2), core.tree_params(3, 2, 2), builds=("C", "P"), pin=3, budget=120,
                     family="F-TREE(3,2,2)", encodes=core.ENC_SCHED))
-    out.append(Cond("steps", core.mk_steps(P, 2, 3), core.steps_params(2, 3), pin=2, budget=120,
+    out.append(Cond("steps", core.mk_steps(P, 2, 3), core.steps_params(2, 3), builds=("C", "P"), pin=2, budget=120,
                     family="F-STEPS(2,3)", encodes=core.ENC_SCHED))
     out.append(core.fault_cond("throw", P, [4] if q else [4, 6], g0modes=3, g1modes=3 if q else 5, pin=4,
                                budget=200 if q else 900, slim=q))
